@@ -1,18 +1,20 @@
 //! Reference models. They never call Kolibrie code.
+pub mod boolfn;
+pub mod expiry_fixpoint;
 pub mod sparql_ast;
 pub mod sparql_eval;
-pub mod update;
-pub mod expiry_fixpoint;
-pub mod window;
 pub mod termdb;
+pub mod update;
+pub mod window;
 
 /// Self-tests of the reference models against hand-computed micro cases.
 pub fn selftest() -> Vec<String> {
     let mut errs = Vec::new();
-    errs.extend(sparql_eval::selftest());
-    errs.extend(update::selftest());
+    errs.extend(boolfn::selftest());
     errs.extend(expiry_fixpoint::selftest());
-    errs.extend(window::selftest());
+    errs.extend(sparql_eval::selftest());
     errs.extend(termdb::selftest());
+    errs.extend(update::selftest());
+    errs.extend(window::selftest());
     errs
 }
